@@ -564,7 +564,9 @@ func gvkFromDeclaredVersion(r *Report, p *Program, rule string) {
 		ok := true
 		for _, b := range f.Blocks {
 			if rt, isR := b.Instrs[len(b.Instrs)-1].(*ssa.Return); isR {
-				through := func(k string) bool { return strings.Contains(k, "schema.GroupVersion.With") || strings.HasSuffix(k, "schema.ParseGroupVersion") }
+				through := func(k string) bool {
+					return strings.Contains(k, "schema.GroupVersion.With") || strings.HasSuffix(k, "schema.ParseGroupVersion")
+				}
 				viaGV := engine.MustDependOnCall(engine.RetVal(rt, 0), func(k string) bool { return strings.HasSuffix(k, "discovery.APIResource.GroupVersion") }, through)
 				viaField := engine.MustSlice(engine.RetVal(rt, 0), func(x ssa.Value) bool {
 					fa, isFA := x.(*ssa.FieldAddr)
